@@ -1,6 +1,8 @@
 (* C02/Check.v — correspondence + property oracle for one C02 harness case (executable only).
 
-   tag 1 (full scan):  procs resume items* filter perturb ids* err
+   tag 1 (full scan):  procs resume items* filter perturb ids* err retained-ids* procs1-ids* procs1-err
+     (retained: the identity of every object re-taken after the scan ended; procs1: the unperturbed
+      single-decoder scan of the same file)
    tag 2 (scan cut by a cancel issued from a decoder goroutine): procs resume items* at ids* err
    tag 3 (rich file: every object is a token hashing all its content): procs resume blocks (each a list of tokens) perturb observed-tokens err
    codes: 1 = the model's run (fair round-robin schedule; the delivered sequence is schedule
@@ -17,12 +19,16 @@ Definition rep_err (e : err) : err := if e =? eEOF then 0 else e.
 Definition check_full : P (list Z) :=
   n <- pnat ;; resume <- pbool ;; its <- plist (ppair pint pint) ;;
   filter <- pint ;; perturb <- pint ;; ids <- plist pint ;; e <- pint ;;
+  retained <- plist pint ;; base <- plist pint ;; base_e <- pint ;;
   let inp := mk_input filter 0 its in
   let c := cfg_of_source n inp resume 0 in
   let fuel := (4 * length its + 4 * n + 60)%nat in
   let '(s, fin) := scan_all c fuel (S (length ids + 2)) (init c) in
   let j1 := fin && list_eqb Z.eqb (delivered s) ids && (err_value s =? e) in
-  let j2 := wf_cfg c && list_eqb Z.eqb ids (expected inp) && (e =? rep_err (final_err inp)) in
+  (* oracle: the file's elements in order; the same as the single-decoder scan of the same file;
+     every retained object is still what it was when it was delivered *)
+  let j2 := wf_cfg c && list_eqb Z.eqb ids (expected inp) && (e =? rep_err (final_err inp))
+            && list_eqb Z.eqb ids base && (e =? base_e) && list_eqb Z.eqb retained ids in
   ret (code_if j1 1 ++ code_if j2 2)%list.
 
 Definition check_cut : P (list Z) :=
@@ -59,12 +65,14 @@ Definition check_wide : P (list Z) :=
 Definition check_rich : P (list Z) :=
   n <- pnat ;; resume <- pbool ;; blocks <- plist (plist ptok) ;;
   perturb <- pint ;; obs <- plist ptok ;; e <- pint ;;
+  retained <- plist ptok ;; base <- plist ptok ;; base_e <- pint ;;
   let inp := map IBlock blocks in
   let c := cfg_of_source n inp resume 0 in
   let fuel := (4 * length blocks + 4 * n + 60)%nat in
   let '(s, fin) := scan_all c fuel (S (length obs + 2)) (init c) in
   let j1 := fin && list_eqb Z.eqb (delivered s) obs && (err_value s =? e) in
-  let j2 := wf_cfg c && list_eqb Z.eqb obs (expected inp) && (e =? 0) in
+  let j2 := wf_cfg c && list_eqb Z.eqb obs (expected inp) && (e =? 0)
+            && list_eqb Z.eqb obs base && (e =? base_e) && list_eqb Z.eqb retained obs in
   ret (code_if j1 1 ++ code_if j2 2)%list.
 
 Definition check_case (t : toks) : list Z :=
